@@ -243,9 +243,10 @@ fn hook_yield(site: &'static str) {
     with_cur(|s, t| s.sched_point(t, site));
 }
 
-/// Seam crossing from the harness's own stubs (sink, source, data).
+/// Seam crossing from the harness's own stubs (sink, source, data). Not charged to the element
+/// budget: the number of sink calls depends on the injected faults, the budget must not.
 pub fn yield_point(site: &'static str) {
-    hook_yield(site);
+    with_cur(|s, t| s.sched_point(t, site));
 }
 
 fn hook_before_lock(is_locked: &dyn Fn() -> bool, site: &'static str) {
